@@ -16,6 +16,11 @@ KindL   == <<"l1handler", "l1handler", "l1handler">>
 SenderL == <<0, 0, 0>>
 NonceL  == <<0, 0, 0>>
 
+\* 48 transactions that are valid whatever the head state is (sequencer trace rounds): odd = L1 handler, even = deploy-account
+KindV   == [i \in 1..48 |-> IF i % 2 = 1 THEN "l1handler" ELSE "deployacc"]
+SenderV == [i \in 1..48 |-> 0]
+NonceV  == [i \in 1..48 |-> 0]
+
 \* the full alphabet (behaviour generation): every validation class of mempool.validate
 \*   1 invoke a1 n0 | 2 invoke a1 n1 | 3 invoke a2 n0 | 4 declare a2 n2 | 5 deploy-account n0 | 6 l1 handler
 \*   7 legacy deploy (unsupported) | 8 invoke v0 (unsupported) | 9 deploy-account n1 (rejected) | 10 invoke from an undeployed address
